@@ -192,6 +192,11 @@ impl TypeCtx {
     fn enter_function(self) -> Self {
         Self { inside_loop: false, ..self }
     }
+
+    // The condition is emitted inside the new loop but belongs to neither loop.
+    fn enter_loop_condition(self) -> Self {
+        Self { inside_loop: false, ..self }
+    }
 }
 
 impl TypeChecker {
@@ -519,7 +524,7 @@ impl TypeChecker {
             S::Definition { .. } => self.definition(statement, ctx),
 
             S::Loop { condition, body, span } => {
-                let (ret, condition) = self.expression(&condition, ctx)?;
+                let (ret, condition) = self.expression(&condition, ctx.enter_loop_condition())?;
                 let boolean = self.push_type(Type::Bool);
                 self.unify(*span, ctx, boolean, condition)?;
 
